@@ -205,9 +205,32 @@ fn gen_c04(seed: u64, idx: usize, tier: Tier) -> RunScenario {
         max_t: if tier == Tier::Thorough && rng.chance(1, 5) { 24 } else { 10 },
         ..Default::default()
     };
-    let spec = gen_world(&mut rng, &p);
+    let mut spec = gen_world(&mut rng, &p);
+    // one world in eight has a chain with a gap: gap2 -> gap1 -> gap0 where gap1 names only gap0/file.txt;
+    // a change to another file of gap0 plus a change to gap2 selects both ends and not the middle, and the
+    // ends must still run in dependency order
+    let gap = rng.chance(1, 8);
+    if gap {
+        let cmds = crate::runworld::world_commands(&spec);
+        for (name, uses) in [("gap0", vec![]), ("gap1", vec!["gap0/file.txt".to_string()]), ("gap2", vec!["gap1".to_string()])] {
+            for c in &cmds {
+                spec.cmd_files.push(crate::world::CmdFile { target: name.into(), command: c.clone(), rel: WorldSpec::default_cmd_rel(name, c), exec: true, broken: false });
+            }
+            spec.targets.push(crate::world::TargetSpec { path: name.into(), uses, ..Default::default() });
+        }
+    }
     let mut opts = gen_opts(&mut rng, &spec);
-    let mode = gen_mode(&mut rng, &spec, &mut opts, false);
+    let mode = if gap {
+        let mut edits = vec!["gap0/other.txt".to_string(), "gap2/file.txt".to_string()];
+        for t in &spec.targets {
+            if !t.path.starts_with("gap") && rng.chance(40, 100) {
+                edits.push(format!("{}/other.txt", t.path));
+            }
+        }
+        Mode::Changed { edits }
+    } else {
+        gen_mode(&mut rng, &spec, &mut opts, false)
+    };
     let max_outs = if rng.chance(1, 3) { 0 } else { 3 };
     let behav = behav_exit0_all(&spec, &mut rng, max_outs);
     let mut behav = behav;
